@@ -127,6 +127,25 @@ def line_preempt_sweep(ctx, base, props, *, nontrivial, classes=None, extra_moni
     return k, (total is not None and k >= total)
 
 
+def enumerate_faults(ctx, base, props, *, nontrivial, classes=None, extra_monitors=(), fault_classes=("server5xx", "client4xx"), whens=("before", "after"),
+                     max_inv=3, max_api=8, limit=200):
+    """Run `base` (with whatever crash plan it carries) fault-free, then once per (invocation, API call, error class,
+    request-lost/response-lost) of that run with exactly that call failing. Returns the number of faulted runs."""
+    free = {**base, "plan": {**(base.get("plan") or {}), "faults": []}}
+    r0 = report_case(ctx, free, props, nontrivial=nontrivial, classes=classes, extra_monitors=extra_monitors)
+    n = 0
+    for inv in r0.invocations[:max_inv]:
+        for i in range(min(inv.get("api_calls", 0), max_api)):
+            for cls in fault_classes:
+                for when in whens:
+                    if n >= limit:
+                        return n
+                    f = {"inv": inv["inv"], "api": i, "class": cls, "when": when}
+                    report_case(ctx, {**free, "plan": {**free["plan"], "faults": [f]}}, props, nontrivial=nontrivial, classes=classes, extra_monitors=extra_monitors)
+                    n += 1
+    return n
+
+
 def _compact(case):
     c = {k: v for k, v in case.items() if k in ("prog", "backend", "plan", "sched", "line")}
     s = json.dumps(c, default=repr)
